@@ -6,21 +6,37 @@ namespace Req
 theorem setCtx_ctxByID (s : State) (c : Nat) (f : Ctx → Ctx) : (setCtx s c f).ctxByID = s.ctxByID := rfl
 theorem cancelSend_ctxByID (s : State) (c : Nat) : (cancelSend s c).ctxByID = s.ctxByID := rfl
 
-/-- re-evaluating the wait loops never registers or unregisters a request id -/
-theorem wake_ctxByID (s : State) (c : Nat) : (wake s c).1.ctxByID = s.ctxByID := by
-  unfold wake
-  split
-  · rfl
-  · simp only []
-    split
-    · split <;> rfl
-    · split
-      · split <;> rfl
-      · split
-        · split <;> rfl
-        · split
-          · split <;> rfl
-          · split <;> (split <;> rfl)
+theorem wakeSends_ctxByID (s : State) (c : Nat) (x : Ctx) : ∀ e ∈ (wakeSends s c x).1.ctxByID, e ∈ s.ctxByID := by
+  intro e he
+  simp only [wakeSends] at he
+  split at he
+  · exact (List.mem_filter.mp he).1
+  · exact he
+
+theorem wakeRecv_ctxByID (s : State) (c : Nat) (np : Bool) (evs : List (Nat × Ev)) :
+    ∀ e ∈ (wakeRecv s c np evs).1.ctxByID, e ∈ s.ctxByID := by
+  intro e he
+  unfold wakeRecv at he
+  split at he
+  · exact he
+  · split at he
+    · exact he
+    · split at he
+      · exact he
+      · simp only [] at he
+        split at he
+        · exact he
+        · split at he
+          · exact (List.mem_filter.mp he).1
+          · exact he
+
+/-- re-evaluating the wait loops never registers a request id (it may drop the registrations of the context) -/
+theorem wake_ctxByID (s : State) (c : Nat) : ∀ e ∈ (wake s c).1.ctxByID, e ∈ s.ctxByID := by
+  intro e he
+  unfold wake at he
+  split at he
+  · exact he
+  · exact wakeSends_ctxByID s c _ e (wakeRecv_ctxByID _ c _ _ e he)
 
 end Req
 end Proto
@@ -45,6 +61,34 @@ theorem getCtx_setCtx (s : State) (c : Nat) (f : Ctx → Ctx) (hf : ∀ y, (f y)
 theorem getCtx_id (s : State) (d : Nat) (x : Ctx) (h : getCtx s d = some x) : x.id = d := by
   unfold getCtx at h
   simpa using List.find?_some h
+
+theorem perms_length_aux : ∀ (n : Nat) (l : List Nat), l.length = n → ∀ m ∈ perms l, m.length = l.length := by
+  intro n
+  induction n with
+  | zero =>
+    intro l hl m hm
+    have : l = [] := List.length_eq_zero_iff.mp hl
+    subst this
+    rw [perms] at hm
+    simp at hm; subst hm; rfl
+  | succ n ih =>
+    intro l hl m hm
+    cases l with
+    | nil => simp at hl
+    | cons a t =>
+      rw [perms] at hm
+      case x_1 => intro h; cases h
+      have hm := List.mem_of_mem_take hm
+      simp only [List.mem_flatMap, List.mem_map] at hm
+      obtain ⟨x, hx, p, hp, rfl⟩ := hm
+      have hlen : ((a :: t).erase x).length = n := by
+        rw [List.length_erase_of_mem hx]; simp at hl ⊢; omega
+      have := ih _ hlen p hp
+      simp only [List.length_cons]
+      rw [this, hlen]; simp at hl; omega
+
+theorem perms_length (l m : List Nat) (h : m ∈ perms l) : m.length = l.length :=
+  perms_length_aux l.length l rfl m h
 
 end Req
 end Proto
